@@ -436,6 +436,16 @@ class Evaluator:
         saved = list(ctx.guards)
         try:
             for op, rn in zip(n.ops, n.comparators):
+                if isinstance(op, (ast.In, ast.NotIn)) and isinstance(rn, (ast.List, ast.Tuple, ast.Set)):
+                    # membership in a literal collection: a disjunction of equalities
+                    items = [self.ev(e, ctx) for e in rn.elts]
+                    c = z3.Or(*[values_equal(left, it) for it in items]) if items else z3.BoolVal(False)
+                    if isinstance(op, ast.NotIn):
+                        c = z3.Not(c)
+                    parts.append(c)
+                    ctx.guards.append(c)
+                    left = None
+                    continue
                 right = self.ev(rn, ctx)
                 c = self.compare(op, left, right, ctx)
                 parts.append(c)
@@ -565,6 +575,9 @@ class Evaluator:
             ctx.assume(lt.n(r) == ln)
             ctx.assume(z3.ForAll([k], z3.Implies(z3.And(0 <= k, k < ln),
                                                  z3.Select(lt.arr(r), k) == z3.Select(lt.arr(base.t), lo + k))))
+            x = fresh('x', z3.IntSort())   # same axiom indexed by the source position (trigger on base[x])
+            ctx.assume(z3.ForAll([x], z3.Implies(z3.And(lo <= x, x < lo + ln),
+                                                 z3.Select(lt.arr(r), x - lo) == z3.Select(lt.arr(base.t), x))))
             return V(lt, r)
         raise OutOfSubset(f'slice on {base.ty}')
 
